@@ -317,6 +317,21 @@ pub fn sym_apply(sym: u8, p: P) -> P {
     pt(x + 0.0, y + 0.0)
 }
 
+/// the same symmetry by plain negation: a zero coordinate becomes -0.0, as in a caller's `-x`
+pub fn sym_apply_raw(sym: u8, p: P) -> P {
+    let (mut x, mut y) = (p.x, p.y);
+    if sym & 4 != 0 {
+        std::mem::swap(&mut x, &mut y);
+    }
+    if sym & 1 != 0 {
+        x = -x;
+    }
+    if sym & 2 != 0 {
+        y = -y;
+    }
+    pt(x, y)
+}
+
 impl Aff {
     pub fn apply(&self, p: P) -> P {
         let q = sym_apply(self.sym, p);
